@@ -1283,3 +1283,48 @@ def rule_namespace_chain_by_evaluation(ctx, rep: Report, rid="G17"):
     rep.add(rid, "collect_namespaces:the path of a declaration is its enclosing namespaces, outermost first", got == want,
             f"for declarations nested 0..4 namespaces deep the function returns {got[3:]} (depth 3, 4), the enclosing scopes are {want[3:]}: classes, enums and "
             f"forward declarations of deeper namespaces are attributed to another scope", f"{rel}:{fn.lineno}")
+
+
+def rule_ctor_stores_what_it_was_given(ctx, rep: Report, rid="G18", package="gtwrap/interface_parser", min_params=40):
+    """A parser node carries what was written, nothing dropped and nothing added: in the constructors of the parser's node
+    classes a parameter is never replaced by a part of itself before it is stored (`base = base.typename` keeps the name of a
+    templated base and loses the const / reference / pointer markers of its arguments), and what is stored for a parameter is
+    not completed with a non-empty constant (`is_virtual or 'virtual'` turns an absent keyword into a declared one).
+    Unwrapping pyparsing's list wrapper (`x = x[0]`, `asList()`) and the empty defaults (`''`, `[]`, `None`) are the idioms
+    the tree uses and are accepted."""
+    prog = ctx.prog
+    n = 0
+    for mi in sorted(prog.modules.values(), key=lambda m: m.rel):
+        if not mi.rel.startswith(package):
+            continue
+        for q, ci in sorted(mi.classes.items()):
+            init = ci.methods.get("__init__")
+            if init is None:
+                continue
+            params = [p for p in func_params(init)[1:] if p != "parent"]
+            for p in params:
+                n += 1
+                probs = []
+                for st in walk_no_nested(init):
+                    if isinstance(st, ast.Assign) and len(st.targets) == 1 and isinstance(st.targets[0], ast.Name) and st.targets[0].id == p:
+                        v = st.value
+                        if isinstance(v, ast.Attribute) and isinstance(v.value, ast.Name) and v.value.id == p and v.attr not in ("asList", "as_list"):
+                            probs.append(f"line {st.lineno}: `{unparse(st)}` replaces the value by one of its parts")
+                    if isinstance(st, (ast.Assign, ast.AnnAssign)) and st.value is not None:
+                        tg = st.targets if isinstance(st, ast.Assign) else [st.target]
+                        if not any(isinstance(t, ast.Attribute) and isinstance(t.value, ast.Name) and t.value.id == "self" for t in tg):
+                            continue
+                        for b in ast.walk(st.value):
+                            if isinstance(b, ast.BoolOp) and isinstance(b.op, ast.Or) and any(isinstance(x, ast.Name) and x.id == p for x in b.values[:-1]):
+                                last = b.values[-1]
+                                if isinstance(last, ast.Constant) and last.value not in ("", None, 0, False):
+                                    probs.append(f"line {st.lineno}: `{unparse(st.value)[:50]}` stores {last.value!r} where the text wrote nothing")
+                            if isinstance(b, ast.IfExp) and any(isinstance(x, ast.Name) and x.id == p for x in ast.walk(b.test)):
+                                for arm in (b.body, b.orelse):
+                                    if isinstance(arm, ast.Constant) and arm.value not in ("", None, 0, False) and isinstance(arm.value, str):
+                                        probs.append(f"line {st.lineno}: `{unparse(st.value)[:50]}` stores {arm.value!r} on one branch")
+                rep.add(rid, f"as given:{q}.__init__:{p}", not probs,
+                        f"{probs[:2]}: the tree then says something the interface file does not (a flag that was not written, a type without its markers)",
+                        f"{mi.rel}:{init.lineno}", nontrivial=bool(probs))
+    if n < min_params:
+        raise AnalysisError(f"{rep.prop}/{rid}: only {n} constructor parameters of parser nodes found")
